@@ -82,7 +82,7 @@ def apply_part(root: str, file: str, func: Optional[str], old: str, new: str) ->
 
 
 def _run_one(args) -> dict:
-    edit_d, repo, scratch_root = args
+    edit_d, repo, scratch_root, prop_override = args
     e = Edit(**edit_d)
     work = tempfile.mkdtemp(prefix=f'{e.id}-', dir=scratch_root)
     t0 = time.time()
@@ -95,6 +95,8 @@ def _run_one(args) -> dict:
         if not ok:
             return {'id': e.id, 'status': 'skipped', 'why': 'edit does not apply to the current tree'}
         from .report import Ctx
+        if e.prop == '*':
+            e.prop = prop_override
         mod = importlib.import_module(f'iva.rules.{e.prop.lower()}')
         ctx = Ctx(e.prop, work, 'quick')
         try:
@@ -123,7 +125,7 @@ def _run_one(args) -> dict:
 
 def run(prop: str, repo: str = '/repo', seed: int = 0, only: Optional[str] = None) -> int:
     from .corpus import CORPUS
-    edits = [e for e in CORPUS if e.prop == prop and (only is None or e.id == only)]
+    edits = [e for e in CORPUS if e.prop in (prop, '*') and (only is None or e.id == only)]
     if not edits:
         print(f'{prop}: no self-validation corpus')
         return 0
@@ -131,7 +133,7 @@ def run(prop: str, repo: str = '/repo', seed: int = 0, only: Optional[str] = Non
     t0 = time.time()
     try:
         jobs = [({'id': e.id, 'prop': e.prop, 'file': e.file, 'func': e.func, 'old': e.old, 'new': e.new,
-                  'expect': e.expect, 'rule': e.rule, 'why': e.why, 'also': e.also}, repo, scratch_root)
+                  'expect': e.expect, 'rule': e.rule, 'why': e.why, 'also': e.also}, repo, scratch_root, prop)
                 for e in edits]
         with mp.get_context('fork').Pool(min(16, max(1, len(jobs)))) as pool:
             results = pool.map(_run_one, jobs, chunksize=1)
